@@ -674,6 +674,717 @@ Proof.
          end.
     all: split; [|split; [cbn; try reflexivity; exact I|]].
     all: try (rewrite app_assoc; apply INVA_quiet; [apply INVA_phase; assumption|repeat constructor]).
-    1: { apply GOOD_app; [exact G1|]. apply GOOD_cons_start. 2: { repeat constructor. }
-      split; [exact Out1|]. intros c Hc. Show. }
+    all: apply GOOD_app; [exact G1|]; apply GOOD_cons_start; [|repeat constructor];
+      (split; [exact Out1|]); intros c Hc;
+      (destruct R as [R|(a1 & Fa & Fg & _)];
+       [ cbn in R; try discriminate R; cbn [kind_guard ms_task_type]; exact I
+       | (inversion Fa; subst a1; subst addr;
+          exact (flags_to_guard st1 (h ++ o1) a _ c I1 Ia Fg Hc)) || discriminate Fa ]).
+  - intros H; inversion H; subst; clear H. split; [|split].
+    + rewrite app_assoc. apply INVA_quiet; [apply INVA_phase; exact I1|repeat constructor].
+    + unfold INVP. cbn. rewrite app_assoc, outstanding_app_neutral; [exact Out1|repeat constructor].
+    + apply GOOD_app; [exact G1|apply GOOD_nostart; repeat constructor].
+  - intros H; inversion H; subst; clear H. split; [|split].
+    + rewrite app_assoc. apply INVA_quiet; [apply INVA_phase; exact I1|repeat constructor].
+    + unfold INVP. cbn. rewrite app_assoc, outstanding_app_neutral; [exact Out1|repeat constructor].
+    + apply GOOD_app; [exact G1|apply GOOD_nostart; repeat constructor].
+  - intros H; inversion H; subst; clear H. split; [|split].
+    + rewrite app_assoc. apply INVA_quiet; [apply INVA_phase; exact I1|repeat constructor].
+    + exact I.
+    + apply GOOD_app; [exact G1|apply GOOD_nostart; repeat constructor].
+Qed.
+
+(* ================================================================================================
+   4. The functions of the step preserve the invariant
+   ================================================================================================ *)
+
+Definition OKR (h : list ms_obs) (st' : ms_mstate) (o : list ms_obs) : Prop :=
+  INV st' (h ++ o) /\ GOOD h o.
+
+Lemma outstanding_snoc h x : outstanding (h ++ [x]) = out_step (outstanding h) x.
+Proof. unfold outstanding. rewrite out_fold_app. reflexivity. Qed.
+
+(* ---- observations of the association-level functions never start or end a request ------------ *)
+
+Lemma process_iin_outn now f a a' o : ms_process_iin now f a = (a', o) -> Forall out_neutral o.
+Proof.
+  unfold ms_process_iin, ms_on_restart.
+  destruct (ms_iin_restart f); [destruct (ms_is_idle _)|]; intros H; inversion H; subst; repeat constructor.
+Qed.
+
+Lemma handle_unsolicited_outn now f a a' o : ms_handle_unsolicited now f a = (a', o) -> Forall out_neutral o.
+Proof.
+  unfold ms_handle_unsolicited. destruct (ms_process_iin now f a) as [a1 seen] eqn:E.
+  apply process_iin_outn in E.
+  destruct (negb _); [intros H; inversion H; subst; apply Forall_app; split; [exact E|repeat constructor]|].
+  destruct (negb _); [intros H; inversion H; subst; apply Forall_app; split; [exact E|repeat constructor]|].
+  intros H; inversion H; subst. apply Forall_app; split; [exact E|]. apply Forall_app; split.
+  - destruct (match ms_a_last_unsol a1 with Some _ => _ | None => _ end); [repeat constructor|].
+    destruct (ms_r_ok f); repeat constructor.
+  - destruct (ms_r_con f); repeat constructor.
+Qed.
+
+Lemma task_error_outn now t e r a a' o : ms_task_error now t e r a = (a', o) -> Forall out_neutral o.
+Proof.
+  unfold ms_task_error.
+  destruct t as [| m | m | m | m | id m | tst [p|] | m tok | tok | [p|]];
+    try solve [intros H; inversion H; subst; repeat constructor].
+  - destruct (match e with MsEIin2 => _ | _ => _ end); intros H; inversion H; subst; repeat constructor.
+  - destruct e; intros H; inversion H; subst; repeat constructor.
+  - destruct e; intros H; inversion H; subst; repeat constructor.
+Qed.
+
+Lemma read_complete_outn now t a a' o : ms_read_complete now t a = (a', o) -> Forall out_neutral o.
+Proof.
+  unfold ms_read_complete.
+  destruct t; intros H; inversion H; subst; repeat constructor.
+Qed.
+
+Lemma tsync_report_outn now p r a a' o : ms_tsync_report now p r a = (a', o) -> Forall out_neutral o.
+Proof.
+  unfold ms_tsync_report. destruct p; [|destruct r]; intros H; inversion H; subst; repeat constructor.
+Qed.
+
+Lemma nonread_handle_outn now sys t f a a' o h : ms_nonread_handle now sys t f a = (a', o, h) -> Forall out_neutral o.
+Proof.
+  unfold ms_nonread_handle.
+  destruct t as [| m | m | m | m | id m | tst p | m tok | tok | q];
+    try lazymatch goal with
+        | |- (_, _, _) = _ -> _ => intros H; inversion H; subst; repeat constructor
+        end.
+  - destruct (ms_iin_restart f); intros H; inversion H; subst; repeat constructor.
+  - assert (R : forall r a1 o1, ms_tsync_report now p r a = (a1, o1) -> Forall out_neutral o1)
+      by (intros r a1 o1; apply tsync_report_outn).
+    destruct tst as [t0 | ts | ts | ts].
+    + destruct (if ms_r_ok f then ms_r_delay f else None) as [d|].
+      * destruct (_ <? d).
+        { destruct (ms_tsync_report now p (Some MsEBadDelay) a) as [a1 o1] eqn:Er.
+          intros H; inversion H; subst. eapply R; exact Er. }
+        destruct (ms_system_time sys now) as [stm|].
+        { destruct (_ <? _).
+          - destruct (ms_tsync_report now p (Some MsEOverflow) a) as [a1 o1] eqn:Er.
+            intros H; inversion H; subst. eapply R; exact Er.
+          - intros H; inversion H; subst. constructor. }
+        destruct (ms_tsync_report now p (Some MsENoSystemTime) a) as [a1 o1] eqn:Er.
+        intros H; inversion H; subst. eapply R; exact Er.
+      * destruct (ms_tsync_report now p (Some MsEUnexpectedHeaders) a) as [a1 o1] eqn:Er.
+        intros H; inversion H; subst. eapply R; exact Er.
+    + destruct (ms_has_objects f).
+      { destruct (ms_tsync_report now p (Some MsEUnexpectedHeaders) a) as [a1 o1] eqn:Er.
+        intros H; inversion H; subst. eapply R; exact Er. }
+      destruct (ms_iin_need_time f).
+      { destruct (ms_tsync_report now p (Some MsEStillNeedsTime) a) as [a1 o1] eqn:Er.
+        intros H; inversion H; subst. eapply R; exact Er. }
+      destruct (ms_tsync_report now p None a) as [a1 o1] eqn:Er.
+      intros H; inversion H; subst. eapply R; exact Er.
+    + destruct (ms_has_objects f).
+      { destruct (ms_tsync_report now p (Some MsEUnexpectedHeaders) a) as [a1 o1] eqn:Er.
+        intros H; inversion H; subst. eapply R; exact Er. }
+      intros H; inversion H; subst. constructor.
+    + destruct (ms_has_objects f).
+      { destruct (ms_tsync_report now p (Some MsEUnexpectedHeaders) a) as [a1 o1] eqn:Er.
+        intros H; inversion H; subst. eapply R; exact Er. }
+      destruct (ms_iin_need_time f).
+      { destruct (ms_tsync_report now p (Some MsEStillNeedsTime) a) as [a1 o1] eqn:Er.
+        intros H; inversion H; subst. eapply R; exact Er. }
+      destruct (ms_tsync_report now p None a) as [a1 o1] eqn:Er.
+      intros H; inversion H; subst. eapply R; exact Er.
+  - destruct (ms_has_objects f); intros H; inversion H; subst; repeat constructor.
+Qed.
+
+(* ---- updating one association, with the notification the caller appends ----------------------- *)
+
+Lemma update_assoc_TR2 st addr f extra st' o :
+  NoDup (addrs st) ->
+  (forall a a' o, f a = (a', o) -> ms_a_addr a = addr -> LS a (o ++ extra) a') ->
+  Forall (about addr) extra -> Forall local extra -> (forall acc, hfold HC addr acc extra = acc) ->
+  ms_update_assoc st addr f = (st', o) ->
+  TR st (o ++ extra) st' /\ ms_m_phase st' = ms_m_phase st.
+Proof.
+  intros Nd Hf Hab Hl Hc. unfold ms_update_assoc.
+  destruct (ms_find_assoc addr (ms_m_assocs st)) as [a|] eqn:E.
+  - destruct (f a) as [a1 o1] eqn:Ef. intros H; inversion H; subst; clear H.
+    apply find_assoc_some in E as [Ia Ea]. split; [|reflexivity].
+    apply put_TR with (a := a); auto.
+  - intros H; inversion H; subst; clear H. split; [|reflexivity]. cbn [app].
+    apply find_assoc_none in E.
+    split; [reflexivity|]. split; [|split].
+    + intros a' Ha'. exists a'. repeat split; auto. intros X HX.
+      rewrite (hfold_other X addr); [exact HX| |exact Hab].
+      intros Heq. apply E. rewrite <- Heq. apply in_map. exact Ha'.
+    + intros B HB. destruct (N.eq_dec B addr) as [->|Hne]; [apply Hc|].
+      apply (hfold_other HC addr); assumption.
+    + intros B. apply cfg_in_local. exact Hl.
+Qed.
+
+Lemma touch_TR st addr : NoDup (addrs st) ->
+  TR st [] (ms_touch st addr) /\ ms_m_phase (ms_touch st addr) = ms_m_phase st.
+Proof.
+  intros Nd. unfold ms_touch.
+  destruct (ms_update_assoc st addr _) as [st1 o1] eqn:E. cbn [fst].
+  assert (o1 = []).
+  { unfold ms_update_assoc in E. destruct (ms_find_assoc _ _); inversion E; reflexivity. }
+  subst o1.
+  apply update_assoc_TR in E; [tauto|exact Nd|].
+  intros a a' o H; inversion H; subst. apply LS_link_activity.
+Qed.
+
+Lemma touch_INVA st h addr : INVA st h -> INVA (ms_touch st addr) h.
+Proof.
+  intros I0. destruct (touch_TR st addr (inv_nodup _ _ I0)) as [T _].
+  pose proof (TR_INVA _ _ _ _ I0 T) as I1. rewrite app_nil_r in I1. exact I1.
+Qed.
+
+Lemma INVP_phase st st' h : ms_m_phase st' = ms_m_phase st -> INVP st' h <-> INVP st h.
+Proof. unfold INVP. intros ->. tauto. Qed.
+
+(* an unsolicited response is handled without leaving the state the session is in *)
+Lemma unsolicited_stay st h src f st1 o1 :
+  INVA st h -> ms_unsolicited st src f = (st1, o1) ->
+  INVA st1 (h ++ o1) /\ ms_m_phase st1 = ms_m_phase st /\ Forall local o1 /\ Forall out_neutral o1.
+Proof.
+  intros I0. unfold ms_unsolicited. intros E.
+  assert (On : Forall out_neutral o1).
+  { unfold ms_update_assoc in E. destruct (ms_find_assoc src (ms_m_assocs st)) as [a|]; [|inversion E; constructor].
+    destruct (ms_handle_unsolicited (ms_m_now st) f a) as [a1 o] eqn:Eh. inversion E; subst.
+    eapply handle_unsolicited_outn; exact Eh. }
+  apply update_assoc_TR in E; [|exact (inv_nodup _ _ I0)|intros a a' o; apply handle_unsolicited_LS].
+  destruct E as (T & P & L). split; [eapply TR_INVA; eassumption|]. auto.
+Qed.
+
+(* after a completion has been recorded in the history, back to the top of the run loop *)
+Lemma complete_OK st1 h o1 st' o2 :
+  INVA st1 (h ++ o1) -> Forall nostart o1 -> outstanding (h ++ o1) = false ->
+  ms_task_done st1 = (st', o2) -> OKR h st' (o1 ++ o2).
+Proof.
+  intros I1 Ns Out. unfold ms_task_done. intros E.
+  apply schedule_OK with (h := h ++ o1) in E; [|apply INVA_phase; exact I1|exact Out].
+  destruct E as (I2 & P2 & G2). split.
+  - rewrite app_assoc. split; assumption.
+  - apply GOOD_app; [apply GOOD_nostart; exact Ns|exact G2].
+Qed.
+
+Lemma fail_task_OK st h dest t k e r st' o :
+  INVA st h -> k = ms_task_type t -> ms_fail_task st dest t k e r = (st', o) -> OKR h st' o.
+Proof.
+  intros I0 Hk. unfold ms_fail_task.
+  destruct (ms_update_assoc st dest _) as [st1 o1] eqn:Eu.
+  destruct (ms_task_done st1) as [st2 o2] eqn:Ed.
+  intros H; inversion H; subst; clear H.
+  assert (L1 : Forall local o1 /\ Forall out_neutral o1).
+  { unfold ms_update_assoc in Eu. destruct (ms_find_assoc dest (ms_m_assocs st)) as [a|]; [|inversion Eu; split; constructor].
+    destruct (ms_task_error (ms_m_now st) t e r a) as [a1 ox] eqn:Ee. inversion Eu; subst.
+    split; [|eapply task_error_outn; exact Ee].
+    pose proof (task_error_LS _ _ _ _ _ _ _ Ee) as (_ & _ & _ & _ & LL).
+    apply Forall_app in LL as [LL _]. exact LL. }
+  apply update_assoc_TR2 with (extra := [MsOFail (ms_m_now st) dest (ms_task_type t) e]) in Eu.
+  - destruct Eu as [T P].
+    assert (Hre : o1 ++ MsOFail (ms_m_now st) dest (ms_task_type t) e :: o2
+                  = (o1 ++ [MsOFail (ms_m_now st) dest (ms_task_type t) e]) ++ o2)
+      by (rewrite <- app_assoc; reflexivity).
+    cbn [app]. rewrite Hre.
+    apply (complete_OK st1 h (o1 ++ [MsOFail (ms_m_now st) dest (ms_task_type t) e]) st' o2).
+    + exact (TR_INVA _ _ _ _ I0 T).
+    + apply Forall_app. split; [apply local_nostart; tauto|repeat constructor].
+    + rewrite app_assoc, outstanding_snoc. reflexivity.
+    + exact Ed.
+  - exact (inv_nodup _ _ I0).
+  - intros a a' ox Hx Ha. subst dest. eapply task_error_LS. exact Hx.
+  - repeat constructor.
+  - repeat constructor.
+  - intros acc. unfold hfold. cbn [fold_left]. unfold hstep. cbn [obs_effect].
+    destruct e; try reflexivity. destruct (N.eqb dest dest); [destruct (ms_task_type t)|]; reflexivity.
+Qed.
+
+Lemma stay_OK st1 h o1 : INVA st1 (h ++ o1) -> INVP st1 (h ++ o1) -> Forall nostart o1 -> OKR h st1 o1.
+Proof. intros I1 P1 N1. split; [split; assumption|apply GOOD_nostart; exact N1]. Qed.
+
+Lemma send_request_spec st addr t st2 o2 s :
+  NoDup (addrs st) -> ms_send_request st addr t = (st2, o2, s) ->
+  TR st [] st2 /\ ms_m_phase st2 = ms_m_phase st /\ Forall quiet o2 /\ Forall nostart o2.
+Proof.
+  intros Nd. unfold ms_send_request.
+  destruct (ms_find_assoc addr (ms_m_assocs st)) as [a|] eqn:Ef; intros H; inversion H; subst; clear H.
+  - apply find_assoc_some in Ef as [Ia _].
+    split; [apply put_TR with (a := a); [exact Nd|exact Ia|apply LS_set_seq]|].
+    split; [reflexivity|]. split; repeat constructor.
+  - split; [apply TR_refl|]. split; [reflexivity|]. split; constructor.
+Qed.
+
+Lemma quiet_confirm (c : bool) x : quiet x -> Forall quiet (if c then [x] else []).
+Proof. intros Q. destruct c; [constructor; [exact Q|constructor]|constructor]. Qed.
+
+Lemma INVP_run st h r : ms_m_phase st = MsPRun r ->
+  match r with MsRNonRead _ t k _ _ _ => k = ms_task_type t | _ => True end -> INVP st h.
+Proof. unfold INVP. intros -> H. destruct r; auto. Qed.
+
+Lemma rx_nonread_OK st h dest t k fc0 seq dl src r st' o :
+  INVA st h -> ms_m_phase st = MsPRun (MsRNonRead dest t k fc0 seq dl) -> k = ms_task_type t ->
+  ms_rx_nonread st dest t k fc0 seq dl src r = (st', o) -> OKR h st' o.
+Proof.
+  intros I0 Ph Hk. subst k. unfold ms_rx_nonread. destruct r as [|f].
+  { apply fail_task_OK; [assumption|reflexivity]. }
+  pose proof (touch_INVA st h src I0) as It.
+  destruct (touch_TR st src (inv_nodup _ _ I0)) as [_ Pt]. rewrite Ph in Pt.
+  set (st0 := ms_touch st src) in *.
+  destruct (ms_r_uns f).
+  { intros E. destruct (unsolicited_stay _ _ _ _ _ _ It E) as (I1 & P1 & L1 & _).
+    apply stay_OK; [exact I1| |apply local_nostart; exact L1].
+    eapply INVP_run; [rewrite P1; exact Pt|reflexivity]. }
+  destruct (negb (N.eqb src dest)).
+  { intros H; inversion H; subst. apply stay_OK; [rewrite app_nil_r; exact It| |constructor].
+    eapply INVP_run; [exact Pt|reflexivity]. }
+  destruct (negb (N.eqb (ms_r_seq f) seq)).
+  { intros H; inversion H; subst. apply stay_OK; [rewrite app_nil_r; exact It| |constructor].
+    eapply INVP_run; [exact Pt|reflexivity]. }
+  destruct (negb (ms_r_fir f && ms_r_fin f)); [apply fail_task_OK; [assumption|reflexivity]|].
+  destruct (ms_iin_bad_request f); [apply fail_task_OK; [assumption|reflexivity]|].
+  destruct (ms_find_assoc dest (ms_m_assocs st0)) as [a|] eqn:Ef.
+  2:{ intros H; inversion H; subst. apply stay_OK; [rewrite app_nil_r; exact It| |constructor].
+      eapply INVP_run; [exact Pt|reflexivity]. }
+  pose proof (find_assoc_some _ _ _ Ef) as [Ia Ea].
+  destruct (ms_process_iin (ms_m_now st) f a) as [a1 seen] eqn:Ep.
+  pose proof (process_iin_LS _ _ _ _ _ Ep) as L1.
+  pose proof (process_iin_outn _ _ _ _ _ Ep) as On1.
+  destruct (ms_nonread_handle (ms_m_now st) (ms_m_systime st0) t f a1) as [[a2 oh] hd] eqn:Eh.
+  pose proof (nonread_handle_outn _ _ _ _ _ _ _ _ Eh) as On2.
+  destruct (nonread_handle_LS _ _ _ _ fc0 seq _ _ _ _ Eh) as [L2 Ty].
+  assert (Ea1 : ms_a_addr a1 = dest) by (destruct L1 as (A & _); congruence).
+  rewrite Ea1 in L2.
+  set (conf := if ms_r_con f then [MsOTx (ms_m_now st) (ms_confirm_sol_bytes seq)] else []) in *.
+  assert (Qc : Forall neutral conf) by (subst conf; destruct (ms_r_con f); neutral_tac).
+  assert (Oc : Forall out_neutral conf) by (subst conf; destruct (ms_r_con f); repeat constructor).
+  (* the association after the response, related to the one before by all observations up to the
+     notification *)
+  pose proof (LS_neutral_app _ _ _ _ Qc (LS_trans _ _ _ _ _ L1 L2)) as L.
+  pose proof (put_TR st0 a _ a2 (inv_nodup _ _ It) Ia L) as T.
+  pose proof (TR_INVA _ _ _ _ It T) as I1.
+  set (st1 := ms_set_assocs st0 (ms_put_assoc a2 (ms_m_assocs st0))) in *.
+  assert (Loc : Forall local (conf ++ seen ++ oh ++ handled_obs (ms_m_now st) dest t fc0 seq hd))
+    by (destruct L as (_ & _ & _ & _ & LL); exact LL).
+  destruct hd as [t'| |e]; cbn [handled_obs] in *.
+  - (* the task continues with another request *)
+    destruct (ms_send_request st1 dest t') as [[st2 o2] s] eqn:Es.
+    assert (Nd1 : NoDup (addrs st1)) by (exact (inv_nodup _ _ I1)).
+    destruct (send_request_spec _ _ _ _ _ _ Nd1 Es) as (T2 & P2 & Q2 & N2).
+    intros H; injection H as <- <-.
+    rewrite app_nil_r in *.
+    match goal with |- OKR _ _ ?l =>
+      assert (Hre : l = (conf ++ seen ++ oh) ++ o2) by (rewrite <- !app_assoc; reflexivity);
+      rewrite Hre; clear Hre end.
+    apply stay_OK.
+    + apply INVA_phase. rewrite app_assoc. apply INVA_quiet; [|exact Q2].
+      pose proof (TR_INVA _ _ _ _ I1 T2) as I2. rewrite app_nil_r in I2. exact I2.
+    + unfold INVP. cbn. congruence.
+    + apply Forall_app; split; [apply local_nostart; exact Loc|exact N2].
+  - (* completed *)
+    destruct (ms_task_done st1) as [st2 o2] eqn:Ed.
+    intros H; injection H as <- <-.
+    match goal with |- OKR _ _ ?l =>
+      assert (Hre : l = (conf ++ seen ++ oh ++ [MsOOk (ms_m_now st) dest (ms_task_type t) fc0 seq]) ++ o2)
+        by (rewrite <- !app_assoc; reflexivity);
+      rewrite Hre; clear Hre end.
+    eapply complete_OK; [exact I1|apply local_nostart; exact Loc| |exact Ed].
+    rewrite !app_assoc, outstanding_snoc. reflexivity.
+  - destruct (ms_task_done st1) as [st2 o2] eqn:Ed.
+    intros H; injection H as <- <-.
+    match goal with |- OKR _ _ ?l =>
+      assert (Hre : l = (conf ++ seen ++ oh ++ [MsOFail (ms_m_now st) dest (ms_task_type t) e]) ++ o2)
+        by (rewrite <- !app_assoc; reflexivity);
+      rewrite Hre; clear Hre end.
+    eapply complete_OK; [exact I1|apply local_nostart; exact Loc| |exact Ed].
+    rewrite !app_assoc, outstanding_snoc. reflexivity.
+Qed.
+
+Lemma rx_read_OK st h dest t seq first dl src r st' o :
+  INVA st h -> ms_m_phase st = MsPRun (MsRRead dest t seq first dl) ->
+  ms_rx_read st dest t seq first dl src r = (st', o) -> OKR h st' o.
+Proof.
+  intros I0 Ph. unfold ms_rx_read. destruct r as [|f].
+  { apply fail_task_OK; [assumption|reflexivity]. }
+  pose proof (touch_INVA st h src I0) as It.
+  destruct (touch_TR st src (inv_nodup _ _ I0)) as [_ Pt]. rewrite Ph in Pt.
+  set (st0 := ms_touch st src) in *.
+  assert (Stay : OKR h st0 []).
+  { apply stay_OK; [rewrite app_nil_r; exact It| |constructor]. eapply INVP_run; [exact Pt|exact I]. }
+  destruct (ms_r_uns f).
+  { intros E. destruct (unsolicited_stay _ _ _ _ _ _ It E) as (I1 & P1 & L1 & _).
+    apply stay_OK; [exact I1| |apply local_nostart; exact L1].
+    eapply INVP_run; [rewrite P1; exact Pt|exact I]. }
+  destruct (negb (N.eqb src dest)); [intros H; injection H as <- <-; exact Stay|].
+  destruct (negb (N.eqb (ms_r_seq f) seq)); [intros H; injection H as <- <-; exact Stay|].
+  destruct (ms_r_fir f && negb first); [apply fail_task_OK; [assumption|reflexivity]|].
+  destruct (negb (ms_r_fir f) && first); [apply fail_task_OK; [assumption|reflexivity]|].
+  destruct (negb (ms_r_fin f) && negb (ms_r_con f)); [apply fail_task_OK; [assumption|reflexivity]|].
+  destruct (ms_iin_bad_request f); [apply fail_task_OK; [assumption|reflexivity]|].
+  destruct (ms_find_assoc dest (ms_m_assocs st0)) as [a|] eqn:Ef; [|intros H; injection H as <- <-; exact Stay].
+  pose proof (find_assoc_some _ _ _ Ef) as [Ia Ea].
+  destruct (ms_process_iin (ms_m_now st) f a) as [a1 seen] eqn:Ep.
+  pose proof (process_iin_LS _ _ _ _ _ Ep) as L1.
+  assert (Ea1 : ms_a_addr a1 = dest) by (destruct L1 as (A & _); congruence).
+  pose proof (put_TR st0 a _ a1 (inv_nodup _ _ It) Ia L1) as T1.
+  pose proof (TR_INVA _ _ _ _ It T1) as I1.
+  set (st1 := ms_set_assocs st0 (ms_put_assoc a1 (ms_m_assocs st0))) in *.
+  assert (Ls : Forall local seen) by (destruct L1 as (_ & _ & _ & _ & LL); exact LL).
+  destruct (negb (ms_r_ok f)).
+  { destruct (ms_fail_task st1 dest t (ms_task_type t) MsEMalformed false) as [st3 o3] eqn:Efl.
+    intros H; injection H as <- <-.
+    apply fail_task_OK with (h := h ++ seen) in Efl; [|exact I1|reflexivity].
+    destruct Efl as [[I3 P3] G3]. split; [rewrite app_assoc; split; assumption|].
+    apply GOOD_app; [apply GOOD_nostart, local_nostart; exact Ls|exact G3]. }
+  set (conf := if ms_r_con f then [MsOTx (ms_m_now st) (ms_confirm_sol_bytes seq)] else []) in *.
+  assert (Qc : Forall neutral conf) by (subst conf; destruct (ms_r_con f); neutral_tac).
+  set (cb := MsOCb (ms_m_now st) dest (ms_read_type t) (ms_r_nvalues f)) in *.
+  assert (Qd : Forall neutral (cb :: conf)) by (constructor; [split; [intros ? ?; reflexivity|exact I]|exact Qc]).
+  destruct (ms_r_fin f).
+  - (* last fragment: the read completes *)
+    destruct (ms_update_assoc st1 dest (ms_read_complete (ms_m_now st) t)) as [st2 oc] eqn:Eu.
+    destruct (ms_task_done st2) as [st3 o3] eqn:Ed.
+    intros H; injection H as <- <-.
+    assert (Lc : Forall local oc).
+    { unfold ms_update_assoc in Eu. destruct (ms_find_assoc dest (ms_m_assocs st1)) as [b|]; [|inversion Eu; constructor].
+      destruct (ms_read_complete (ms_m_now st) t b) as [b1 ox] eqn:Er. inversion Eu; subst.
+      pose proof (read_complete_LS _ _ seq _ _ _ Er) as (_ & _ & _ & _ & LL).
+      apply Forall_app in LL as [LL _]. exact LL. }
+    apply update_assoc_TR2 with (extra := [MsOOk (ms_m_now st) dest (ms_task_type t) 1%N seq]) in Eu.
+    2: exact (inv_nodup _ _ I1).
+    2:{ intros b b' ox Hx Hb. rewrite <- Hb. eapply read_complete_LS. exact Hx. }
+    2: repeat constructor.
+    2: repeat constructor.
+    2:{ intros acc. unfold hfold. cbn [fold_left]. unfold hstep. cbn [obs_effect].
+        destruct (N.eqb dest dest); [destruct (ms_task_type t)|]; reflexivity. }
+    destruct Eu as [T2 P2].
+    pose proof (INVA_quiet _ _ _ I1 (neutral_quiet _ Qd)) as I1'.
+    pose proof (TR_INVA _ _ _ _ I1' T2) as I2.
+    match goal with |- OKR _ _ ?l =>
+      assert (Hre : l = (seen ++ (cb :: conf) ++ oc ++ [MsOOk (ms_m_now st) dest (ms_task_type t) 1%N seq]) ++ o3)
+        by (repeat first [rewrite <- app_assoc | rewrite <- app_comm_cons | progress cbn [app]]; reflexivity);
+      rewrite Hre; clear Hre end.
+    eapply complete_OK; [| | |exact Ed].
+    + match goal with |- INVA _ ?l => match type of I2 with INVA _ ?l2 =>
+        assert (Hl : l = l2)
+          by (repeat first [rewrite <- app_assoc | rewrite <- app_comm_cons | progress cbn [app]]; reflexivity);
+        rewrite Hl; exact I2 end end.
+    + apply Forall_app; split; [apply local_nostart; exact Ls|].
+      apply Forall_app; split; [apply local_nostart, neutral_local; exact Qd|].
+      apply Forall_app; split; [apply local_nostart; exact Lc|repeat constructor].
+    + rewrite !app_assoc, outstanding_snoc. reflexivity.
+  - (* another fragment is expected *)
+    intros H; injection H as <- <-.
+    match goal with |- OKR _ _ ?l =>
+      assert (Hre : l = seen ++ (cb :: conf)) by (repeat first [rewrite <- app_assoc | rewrite <- app_comm_cons | progress cbn [app]]; reflexivity);
+      rewrite Hre; clear Hre end.
+    apply stay_OK.
+    + apply INVA_phase. rewrite app_assoc. apply INVA_quiet; [|apply neutral_quiet; exact Qd].
+      assert (Ia1 : In a1 (ms_m_assocs st1)).
+      { cbn. clear - Ia Ea1 Ea. assert (Hin : In (ms_a_addr a1) (map ms_a_addr (ms_m_assocs st0))).
+        { rewrite Ea1, <- Ea. apply in_map. exact Ia. }
+        pose proof (find_put _ a1 _ Hin eq_refl) as F. apply find_assoc_some in F as [F _]. exact F. }
+      pose proof (put_TR st1 a1 [] _ (inv_nodup _ _ I1) Ia1 (LS_set_seq a1 (ms_seq_next (ms_a_seq a1)))) as T2.
+      pose proof (TR_INVA _ _ _ _ I1 T2) as I2. rewrite app_nil_r in I2. exact I2.
+    + exact I.
+    + apply Forall_app; split; [apply local_nostart; exact Ls|apply local_nostart, neutral_local; exact Qd].
+Qed.
+
+Lemma INV_same st st' h : ms_m_assocs st' = ms_m_assocs st -> ms_m_phase st' = ms_m_phase st ->
+  INV st h -> INV st' h.
+Proof.
+  intros EA EP [[Nd Fl Un Cf] P]. split.
+  - constructor; unfold addrs in *; rewrite ?EA; assumption.
+  - unfold INVP in *. rewrite EP. exact P.
+Qed.
+
+Lemma OKR_nil st h : INV st h -> OKR h st [].
+Proof. intros I0. split; [rewrite app_nil_r; exact I0|apply GOOD_nil]. Qed.
+
+Definition link_res (now : ms_time) (dest : N) (p : option N) (e : ms_err) : list ms_obs :=
+  match p with Some tok => [MsORes now tok (Some e)] | None => [] end ++ [MsOLinkEnd now dest].
+
+Lemma link_res_quiet now dest p e : Forall quiet (link_res now dest p e).
+Proof. unfold link_res. destruct p; repeat constructor. Qed.
+Lemma link_res_nostart now dest p e : Forall nostart (link_res now dest p e).
+Proof. unfold link_res. destruct p; repeat constructor. Qed.
+Lemma link_res_out h now dest p e : outstanding (h ++ link_res now dest p e) = false.
+Proof. unfold link_res. rewrite app_assoc, outstanding_snoc. reflexivity. Qed.
+
+Lemma rx_link_OK st h dest p src r st' o :
+  INVA st h -> ms_rx_link st dest p src r = (st', o) -> OKR h st' o.
+Proof.
+  intros I0. unfold ms_rx_link.
+  change (match p with Some tok => [MsORes (ms_m_now st) tok (Some MsEUnexpectedHeaders)] | None => [] end
+          ++ [MsOLinkEnd (ms_m_now st) dest]) with (link_res (ms_m_now st) dest p MsEUnexpectedHeaders).
+  set (res := link_res (ms_m_now st) dest p MsEUnexpectedHeaders).
+  destruct r as [|f].
+  - destruct (ms_task_done st) as [st1 o1] eqn:Ed. intros H; injection H as <- <-.
+    eapply complete_OK; [apply INVA_quiet; [exact I0|apply link_res_quiet]|apply link_res_nostart
+                        |apply link_res_out|exact Ed].
+  - pose proof (touch_INVA st h src I0) as It. set (st0 := ms_touch st src) in *.
+    destruct (if ms_r_uns f then ms_unsolicited st0 src f else (st0, [])) as [st1 o1] eqn:Eu.
+    assert (U : INVA st1 (h ++ o1) /\ Forall local o1).
+    { destruct (ms_r_uns f).
+      - destruct (unsolicited_stay _ _ _ _ _ _ It Eu) as (I1 & _ & L1 & _). split; assumption.
+      - inversion Eu; subst. rewrite app_nil_r. split; [exact It|constructor]. }
+    destruct U as [I1 L1].
+    destruct (ms_task_done st1) as [st2 o2] eqn:Ed. intros H; injection H as <- <-.
+    rewrite app_assoc.
+    eapply complete_OK; [| | |exact Ed].
+    + rewrite app_assoc. apply INVA_quiet; [exact I1|apply link_res_quiet].
+    + apply Forall_app; split; [apply local_nostart; exact L1|apply link_res_nostart].
+    + rewrite app_assoc. apply link_res_out.
+Qed.
+
+Lemma rx_idle_OK st h src r st' o :
+  INVA st h -> outstanding h = false -> ms_rx_idle st src r = (st', o) -> OKR h st' o.
+Proof.
+  intros I0 Out. unfold ms_rx_idle. destruct r as [|f].
+  - intros Ed. rewrite <- (app_nil_l o).
+    eapply complete_OK; [rewrite app_nil_r; exact I0|constructor|rewrite app_nil_r; exact Out|exact Ed].
+  - pose proof (touch_INVA st h src I0) as It. set (st0 := ms_touch st src) in *.
+    destruct (if ms_r_uns f then ms_unsolicited st0 src f else (st0, [])) as [st1 o1] eqn:Eu.
+    assert (U : INVA st1 (h ++ o1) /\ Forall local o1 /\ Forall out_neutral o1).
+    { destruct (ms_r_uns f).
+      - destruct (unsolicited_stay _ _ _ _ _ _ It Eu) as (I1 & _ & L1 & N1). auto.
+      - inversion Eu; subst. rewrite app_nil_r. split; [exact It|split; constructor]. }
+    destruct U as (I1 & L1 & N1).
+    destruct (ms_task_done st1) as [st2 o2] eqn:Ed. intros H; injection H as <- <-.
+    eapply complete_OK; [exact I1|apply local_nostart; exact L1| |exact Ed].
+    rewrite outstanding_app_neutral; assumption.
+Qed.
+
+Lemma on_rx_OK st h src r st' o : INV st h -> ms_on_rx st src r = (st', o) -> OKR h st' o.
+Proof.
+  intros [I0 P0]. unfold ms_on_rx. unfold INVP in P0.
+  destruct (ms_m_phase st) as [|u|[dest t k fc0 seq dl|dest t seq first dl|dest p dl]|] eqn:Ph.
+  - intros H; injection H as <- <-. apply OKR_nil. split; [exact I0|unfold INVP; rewrite Ph; exact P0].
+  - apply rx_idle_OK; assumption.
+  - eapply rx_nonread_OK; eassumption.
+  - eapply rx_read_OK; eassumption.
+  - apply rx_link_OK; assumption.
+  - intros H; injection H as <- <-. apply OKR_nil. split; [exact I0|unfold INVP; rewrite Ph; exact I].
+Qed.
+
+Lemma fire_OK st h st' o : INV st h -> ms_fire st = (st', o) -> OKR h st' o.
+Proof.
+  intros [I0 P0]. unfold ms_fire. unfold INVP in P0.
+  destruct (ms_m_phase st) as [|u|[dest t k fc0 seq dl|dest t seq first dl|dest p dl]|] eqn:Ph.
+  - intros H; injection H as <- <-. apply OKR_nil. split; [exact I0|unfold INVP; rewrite Ph; exact P0].
+  - intros Ed. rewrite <- (app_nil_l o).
+    eapply complete_OK; [rewrite app_nil_r; exact I0|constructor|rewrite app_nil_r; exact P0|exact Ed].
+  - apply fail_task_OK; assumption.
+  - apply fail_task_OK; [assumption|reflexivity].
+  - change (match p with Some tok => [MsORes (ms_m_now st) tok (Some MsETimeout)] | None => [] end
+            ++ [MsOLinkEnd (ms_m_now st) dest]) with (link_res (ms_m_now st) dest p MsETimeout).
+    destruct (ms_task_done st) as [st1 o1] eqn:Ed. intros H; injection H as <- <-.
+    eapply complete_OK; [apply INVA_quiet; [exact I0|apply link_res_quiet]|apply link_res_nostart
+                        |apply link_res_out|exact Ed].
+  - intros H; injection H as <- <-. apply OKR_nil. split; [exact I0|unfold INVP; rewrite Ph; exact I].
+Qed.
+
+Lemma OKR_seq h st1 o1 st2 o2 : OKR h st1 o1 -> OKR (h ++ o1) st2 o2 -> OKR h st2 (o1 ++ o2).
+Proof.
+  intros [I1 G1] [I2 G2]. split; [rewrite app_assoc; exact I2|apply GOOD_app; assumption].
+Qed.
+
+Lemma advance_OK fuel : forall target st h st' o,
+  INV st h -> ms_advance fuel target st = (st', o) -> OKR h st' o.
+Proof.
+  induction fuel as [|k IH]; intros target st h st' o I0; cbn [ms_advance].
+  - intros H; injection H as <- <-. split; [|apply GOOD_nostart; repeat constructor].
+    destruct I0 as [IA _]. split.
+    + apply INVA_quiet; [apply INVA_phase; exact IA|repeat constructor].
+    + exact I.
+  - destruct (ms_deadline_of st) as [dl|].
+    + destruct (dl <=? target).
+      * destruct (ms_fire (ms_set_now st dl)) as [st1 o1] eqn:Ef.
+        destruct (ms_advance k target st1) as [st2 o2] eqn:Ea.
+        intros H; injection H as <- <-.
+        assert (I0' : INV (ms_set_now st dl) h) by (eapply INV_same; [| |exact I0]; reflexivity).
+        pose proof (fire_OK _ _ _ _ I0' Ef) as O1.
+        eapply OKR_seq; [exact O1|]. eapply IH; [exact (proj1 O1)|exact Ea].
+      * intros H; injection H as <- <-. apply OKR_nil. eapply INV_same; [| |exact I0]; reflexivity.
+    + intros H; injection H as <- <-. apply OKR_nil. eapply INV_same; [| |exact I0]; reflexivity.
+Qed.
+
+Lemma after_message_OK st h st' o : INV st h -> ms_after_message st = (st', o) -> OKR h st' o.
+Proof.
+  intros [I0 P0]. unfold ms_after_message. unfold INVP in P0.
+  destruct (ms_m_phase st) as [|u|r|] eqn:Ph.
+  - intros H; injection H as <- <-. apply OKR_nil. split; [exact I0|unfold INVP; rewrite Ph; exact P0].
+  - intros Ed. rewrite <- (app_nil_l o).
+    eapply complete_OK; [rewrite app_nil_r; exact I0|constructor|rewrite app_nil_r; exact P0|exact Ed].
+  - intros H; injection H as <- <-. apply OKR_nil. split; [exact I0|unfold INVP; rewrite Ph; exact P0].
+  - intros H; injection H as <- <-. apply OKR_nil. split; [exact I0|unfold INVP; rewrite Ph; exact I].
+Qed.
+
+(* ---- losing and regaining the connection ---------------------------------------------------------- *)
+
+Lemma fail_queue_res now e a : Forall is_res (ms_fail_queue now e a).
+Proof.
+  unfold ms_fail_queue. induction (ms_a_queue a) as [|[tok uk] q IH]; [constructor|].
+  cbn [map concat]. apply Forall_app; split; [|exact IH].
+  destruct uk; cbn; repeat constructor.
+Qed.
+
+Lemma reset_all_res st e st' o : ms_reset_all st e = (st', o) -> Forall is_res o /\ ms_m_assocs st' = map ms_assoc_reset (ms_m_assocs st) /\ ms_m_phase st' = ms_m_phase st.
+Proof.
+  unfold ms_reset_all. intros H; injection H as <- <-. split; [|split; reflexivity].
+  induction (ms_m_assocs st) as [|a l IH]; [constructor|]. cbn [map concat].
+  apply Forall_app; split; [apply fail_queue_res|exact IH].
+Qed.
+
+Lemma fail_running_spec st h e st1 o1 :
+  INV st h -> ms_m_phase st <> MsPStalled -> ms_fail_running st e = (st1, o1) ->
+  TR st o1 st1 /\ Forall nostart o1 /\ outstanding (h ++ o1) = false.
+Proof.
+  intros [I0 P0] Hns. unfold ms_fail_running. unfold INVP in P0.
+  destruct (ms_m_phase st) as [|u|[dest t k fc0 seq dl|dest t seq first dl|dest p dl]|] eqn:Ph.
+  - intros H; injection H as <- <-. split; [apply TR_refl|]. split; [constructor|]. rewrite app_nil_r. exact P0.
+  - intros H; injection H as <- <-. split; [apply TR_refl|]. split; [constructor|]. rewrite app_nil_r. exact P0.
+  - subst k. destruct (ms_update_assoc st dest _) as [st2 o2] eqn:Eu. intros H; injection H as <- <-.
+    assert (L2 : Forall local o2).
+    { unfold ms_update_assoc in Eu. destruct (ms_find_assoc dest (ms_m_assocs st)) as [a|]; [|inversion Eu; constructor].
+      destruct (ms_task_error (ms_m_now st) t e false a) as [a1 ox] eqn:Ee. inversion Eu; subst.
+      pose proof (task_error_LS _ _ _ _ _ _ _ Ee) as (_ & _ & _ & _ & LL).
+      apply Forall_app in LL as [LL _]. exact LL. }
+    apply update_assoc_TR2 with (extra := [MsOFail (ms_m_now st) dest (ms_task_type t) e]) in Eu.
+    + destruct Eu as [T _]. split; [exact T|]. split.
+      * apply Forall_app; split; [apply local_nostart; exact L2|repeat constructor].
+      * rewrite app_assoc, outstanding_snoc. reflexivity.
+    + exact (inv_nodup _ _ I0).
+    + intros a a' ox Hx Ha. subst dest. eapply task_error_LS. exact Hx.
+    + repeat constructor.
+    + repeat constructor.
+    + intros acc. unfold hfold. cbn [fold_left]. unfold hstep. cbn [obs_effect].
+      destruct e; try reflexivity. destruct (N.eqb dest dest); [destruct (ms_task_type t)|]; reflexivity.
+  - destruct (ms_update_assoc st dest _) as [st2 o2] eqn:Eu. intros H; injection H as <- <-.
+    assert (L2 : Forall local o2).
+    { unfold ms_update_assoc in Eu. destruct (ms_find_assoc dest (ms_m_assocs st)) as [a|]; [|inversion Eu; constructor].
+      destruct (ms_task_error (ms_m_now st) t e false a) as [a1 ox] eqn:Ee. inversion Eu; subst.
+      pose proof (task_error_LS _ _ _ _ _ _ _ Ee) as (_ & _ & _ & _ & LL).
+      apply Forall_app in LL as [LL _]. exact LL. }
+    apply update_assoc_TR2 with (extra := [MsOFail (ms_m_now st) dest (ms_task_type t) e]) in Eu.
+    + destruct Eu as [T _]. split; [exact T|]. split.
+      * apply Forall_app; split; [apply local_nostart; exact L2|repeat constructor].
+      * rewrite app_assoc, outstanding_snoc. reflexivity.
+    + exact (inv_nodup _ _ I0).
+    + intros a a' ox Hx Ha. subst dest. eapply task_error_LS. exact Hx.
+    + repeat constructor.
+    + repeat constructor.
+    + intros acc. unfold hfold. cbn [fold_left]. unfold hstep. cbn [obs_effect].
+      destruct e; try reflexivity. destruct (N.eqb dest dest); [destruct (ms_task_type t)|]; reflexivity.
+  - intros H; injection H as <- <-.
+    change (match p with Some tok => [MsORes (ms_m_now st) tok (Some e)] | None => [] end
+            ++ [MsOLinkEnd (ms_m_now st) dest]) with (link_res (ms_m_now st) dest p e).
+    split; [apply TR_quiet, link_res_quiet|]. split; [apply link_res_nostart|apply link_res_out].
+  - congruence.
+Qed.
+
+Lemma hist_closed X A h t e : hist X A (h ++ [MsOClosed t e]) = match X with HC => true | _ => false end.
+Proof. rewrite hist_app. unfold hfold. cbn. unfold hstep. cbn. reflexivity. Qed.
+
+Lemma close_session_OK st h e st' o :
+  INV st h -> ms_m_phase st <> MsPStalled -> ms_close_session st e = (st', o) -> OKR h st' o.
+Proof.
+  intros I0 Hns. unfold ms_close_session.
+  destruct (ms_fail_running st e) as [st1 o1] eqn:Ef.
+  destruct (ms_reset_all st1 e) as [st2 o2] eqn:Er.
+  intros H; injection H as <- <-.
+  destruct (fail_running_spec _ _ _ _ _ I0 Hns Ef) as (T1 & N1 & Out1).
+  destruct (reset_all_res _ _ _ _ Er) as (R2 & A2 & _).
+  destruct I0 as [[Nd Fl Un Cf] P0]. destruct T1 as (TA & TF & TU & TC).
+  split; [split|].
+  - (* associations *)
+    assert (EAd : addrs (ms_set_phase st2 MsPDown) = addrs st).
+    { unfold addrs. cbn. rewrite A2, map_map. cbn. exact TA. }
+    rewrite !app_assoc. constructor.
+    + rewrite EAd. exact Nd.
+    + intros a X Ha HX. rewrite hist_closed. cbn in Ha. rewrite A2 in Ha. apply in_map_iff in Ha as (a0 & <- & _).
+      destruct X; cbn in HX; try discriminate; reflexivity.
+    + intros B HB. rewrite EAd in HB. split; [rewrite hist_closed; reflexivity|].
+      rewrite !cfg_in_app. destruct (Un B HB) as [_ ->]. rewrite TC.
+      rewrite (cfg_in_quiet o2) by (apply res_quiet; exact R2). reflexivity.
+    + intros a Ha. cbn in Ha. rewrite A2 in Ha. apply in_map_iff in Ha as (a1 & <- & Ha1).
+      destruct (TF a1 Ha1) as (a0 & Ha0 & E1 & E2 & _). cbn [ms_assoc_reset ms_a_addr ms_a_cfg].
+      rewrite <- !app_assoc, cfg_in_app, E1, E2, (Cf a0 Ha0). reflexivity.
+  - unfold INVP. cbn. rewrite !app_assoc, outstanding_snoc. cbn [out_step].
+    rewrite outstanding_app_neutral; [exact Out1|apply res_out_neutral; exact R2].
+  - apply GOOD_nostart. apply Forall_app; split; [exact N1|].
+    apply Forall_app; split; [apply res_nostart; exact R2|repeat constructor].
+Qed.
+
+Lemma open_session_OK st h st' o :
+  INVA st h -> outstanding h = false -> ms_open_session st = (st', o) -> OKR h st' o.
+Proof.
+  intros I0 Out. unfold ms_open_session.
+  destruct (ms_schedule (ms_set_phase st (MsPIdle None))) as [st1 o1] eqn:Es.
+  intros H; injection H as <- <-.
+  apply schedule_OK with (h := h ++ [MsOConn (ms_m_now st)]) in Es.
+  - destruct Es as (I1 & P1 & G1). change (MsOConn (ms_m_now st) :: o1) with ([MsOConn (ms_m_now st)] ++ o1).
+    split; [rewrite app_assoc; split; assumption|].
+    apply GOOD_app; [apply GOOD_nostart; repeat constructor|exact G1].
+  - apply INVA_phase. apply INVA_quiet; [exact I0|repeat constructor].
+  - rewrite outstanding_app_neutral; [exact Out|repeat constructor].
+Qed.
+
+(* ---- messages of the user API ------------------------------------------------------------------------ *)
+
+Lemma insert_assoc_in a l x : In x (ms_insert_assoc a l) <-> x = a \/ In x l.
+Proof.
+  induction l as [|y l IH]; cbn [ms_insert_assoc].
+  - cbn. intuition.
+  - destruct (N.ltb (ms_a_addr a) (ms_a_addr y)); cbn [In] in *; intuition.
+Qed.
+
+Lemma insert_assoc_nodup a l : NoDup (map ms_a_addr l) -> ~ In (ms_a_addr a) (map ms_a_addr l) ->
+  NoDup (map ms_a_addr (ms_insert_assoc a l)).
+Proof.
+  induction l as [|y l IH]; cbn [ms_insert_assoc map]; intros Nd Hn.
+  - constructor; [intros []|constructor].
+  - destruct (N.ltb (ms_a_addr a) (ms_a_addr y)); cbn [map].
+    + constructor; assumption.
+    + inversion Nd as [|? ? Hy Nd']; subst. constructor.
+      * intros Hin. apply in_map_iff in Hin as (z & Ez & Hz). apply insert_assoc_in in Hz as [->|Hz].
+        -- apply Hn. left. congruence.
+        -- apply Hy. rewrite <- Ez. apply in_map. exact Hz.
+      * apply IH; [exact Nd'|]. intros Hin. apply Hn. right. exact Hin.
+Qed.
+
+Lemma insert_assoc_addrs a l B : In B (map ms_a_addr (ms_insert_assoc a l)) <-> B = ms_a_addr a \/ In B (map ms_a_addr l).
+Proof.
+  split.
+  - intros H. apply in_map_iff in H as (x & Ex & Hx). apply insert_assoc_in in Hx as [->|Hx]; [left; congruence|].
+    right. apply in_map_iff. exists x. split; assumption.
+  - intros [->|H].
+    + apply in_map_iff. exists a. split; [reflexivity|apply insert_assoc_in; left; reflexivity].
+    + apply in_map_iff in H as (x & Ex & Hx). apply in_map_iff.
+      exists x. split; [exact Ex|apply insert_assoc_in; right; exact Hx].
+Qed.
+
+Lemma hist_quiet1 X A h x : quiet x -> hist X A (h ++ [x]) = hist X A h.
+Proof. intros Q. rewrite hist_app. apply hfold_quiet. constructor; [exact Q|constructor]. Qed.
+
+Lemma add_assoc_INV st h addr c :
+  INV st h -> ms_find_assoc addr (ms_m_assocs st) = None ->
+  INV (ms_set_ring (ms_set_assocs st (ms_insert_assoc (ms_assoc_new addr c (ms_m_now st)) (ms_m_assocs st)))
+                   (ms_m_ring st ++ [addr]))
+      (h ++ [MsOAssoc (ms_m_now st) addr c]).
+Proof.
+  intros [[Nd Fl Un Cf] P0] Hf. apply find_assoc_none in Hf.
+  set (a0 := ms_assoc_new addr c (ms_m_now st)).
+  assert (Eq : forall X A, hist X A (h ++ [MsOAssoc (ms_m_now st) addr c]) = hist X A h).
+  { intros X A. rewrite hist_app. reflexivity. }
+  split.
+  - constructor.
+    + unfold addrs. cbn. apply insert_assoc_nodup; assumption.
+    + intros a X Ha HX. cbn in Ha. apply insert_assoc_in in Ha as [->|Ha]; rewrite Eq.
+      * destruct X; cbn in HX; try discriminate. exact (proj1 (Un addr Hf)).
+      * apply Fl; assumption.
+    + intros B HB. unfold addrs in HB. cbn in HB. rewrite insert_assoc_addrs in HB. cbn in HB.
+      assert (HB1 : B <> addr) by tauto. assert (HB2 : ~ In B (addrs st)) by (unfold addrs; tauto).
+      destruct (Un B HB2) as [U1 U2]. split; [rewrite Eq; exact U1|].
+      rewrite cfg_in_app, U2. cbn. destruct (N.eqb addr B) eqn:E; [apply N.eqb_eq in E; congruence|reflexivity].
+    + intros a Ha. cbn in Ha. apply insert_assoc_in in Ha as [->|Ha]; rewrite cfg_in_app.
+      * Show. admit.
+      * admit.
+  - admit.
 Admitted.
